@@ -23,6 +23,8 @@ pub struct KCfg {
     pub stop_after: u64,
     pub post_actions: usize,
     pub shared_sub: bool,
+    /// a subscriber of one store dispatches into the other store from the reducer context
+    pub cross_dispatch: Option<u8>,
     pub scripts: Vec<Script>,
     pub perturb: u8,
 }
@@ -61,6 +63,7 @@ pub fn gen(rng: &mut Rng, tiny: bool) -> KCfg {
         stop_after: rng.below(total_other.max(1)),
         post_actions: rng.range(1, 4) as usize,
         shared_sub: rng.chance(2, 3),
+        cross_dispatch: if rng.chance(1, 2) { Some(rng.below(2) as u8) } else { None },
         scripts,
         perturb: rng.below(3) as u8,
     }
@@ -77,6 +80,7 @@ pub fn describe(c: &KCfg) -> J {
         ("stop_after_other_returns", J::U(c.stop_after)),
         ("post_actions_on_survivor", J::U(c.post_actions as u64)),
         ("shared_subscriber", J::B(c.shared_sub)),
+        ("subscriber_of_store_dispatching_into_the_other", c.cross_dispatch.map(|s| J::U(s as u64)).unwrap_or(J::Null)),
     ])
 }
 
@@ -93,6 +97,20 @@ pub fn execute(c: &KCfg, seed: u64) -> W {
             let arc: Arc<dyn Subscriber<St, Act> + Send + Sync> = sub.clone();
             keep.push((id, w.add_sub_arc(s, id, arc, false)));
         }
+    }
+    if let Some(from) = c.cross_dispatch {
+        let to = 1 - from;
+        let n = Arc::new(std::sync::atomic::AtomicU32::new(0));
+        keep.push(w.add_direct_sub(from, true, |sub| {
+            sub.hook = Some(Arc::new(move |cx: &Arc<Ctx>, _st: &St, _a: &Act| {
+                let k = n.fetch_add(1, std::sync::atomic::Ordering::Relaxed);
+                if k < 8 {
+                    if let Some(st) = cx.store(to) {
+                        dispatch_on(cx, &st, to, EP_INHERENT, Act { id: act_id(to, 33, k + 1), script: 0 });
+                    }
+                }
+            }));
+        }));
     }
     let x = c.first_stop;
     let y = 1 - x;
